@@ -110,11 +110,13 @@ def run(ctx):
     if ctx.bdir:
         wdc = vf.workdir()
         cm = []
+        cm_lines = []
         cidc = 780000
         for variant in [v_ for v_ in gen.VARIANTS if v_[2]]:
             for j in range(ctx.budget(2, 12)):
                 _line, m = cli.make_case(rng.fork('cw%d' % cidc), cidc, wdc, variant=variant)
                 cm.append(m)
+                cm_lines.append(_line)
                 cidc += 1
         bad = []
         for j, m0 in enumerate(cm[:ctx.budget(6, 30)]):
@@ -131,6 +133,12 @@ def run(ctx):
             m['out'] = os.path.join(m['dir'], 'out_bad')
             bad.append(m)
         cli.compare_with_model(ctx, ctx.bdir, cm + bad, name='K-CLI(model, --w)', check_created=False)
+        # the same runs of the binary against the LIBRARY started from the file's values (every one of the four --w selections: that the
+        # front end hands the values it read to a variant that uses them)
+        resw = ctx.component('K-E2E(library started from the file, implementation only)', cm_lines, model=False)
+        if resw:
+            stw = cli.run_and_compare(ctx, ctx.bdir, cm, resw['impl'])
+            n_eval += stw['runs']
     ctx.oracle.update({'evaluations': n_eval, 'distinct_nontrivial': len(keys),
                        'rule': 'read_affinity_data on generated files for every K in 2..5, L in 1..4, both models: well-formed files in several layouts (comment header, shuffled layers, tabs, blank lines) must put d_k on (k,k,layer) and leave the sentinels elsewhere; shape-mismatching files (columns +-1, ragged, extra/missing layer, layer id out of range or repeated, comment only, wrong K) must be rejected; start affinities of r = 2..4 realizations against file value + [0,0.1). distinct = (kind, K > 2, model, layout or mismatch kind)'})
     ctx.samples = [{'file': bytes.fromhex(cases[0].split()[6]).decode('latin-1')}]
